@@ -1,10 +1,18 @@
 /-
   Proofs/C10.lean — property C10: the in-memory store honours the Cursor contract.
+
+  `Store.build evs` is the model of `store.CreateInMemory` on the event stream `evs`.
+  Everything below except the last block holds for EVERY event list; the relative order
+  namespace nodes < attributes < children inside an element (`nss_lt_attrs`, …, and hence `wfb`)
+  needs the stream to honour the Parser contract (`Ordered`), and fails without it
+  (see the counter-examples at the end).
 -/
 import Xsel.SpecStore
+import Proofs.Lemmas.StoreWf
+import Proofs.Lemmas.StoreMirror
 
 namespace Xsel.C10
-open Xsel Xsel.Store
+open Xsel Xsel.Store Xsel.StoreL
 
 /-- non-vacuity: a stream with namespaces, an override, an undeclaration, attributes, nested and
     top-level nodes and a surplus end event builds a tree that satisfies the Cursor contract and
@@ -16,5 +24,175 @@ def sampleStream : List Ev :=
 
 example : wfb (build sampleStream) = true := by decide
 example : Spec.mirrors sampleStream (build sampleStream) = true := by decide
+
+/-! ### for every event list -/
+
+variable (evs : List Ev)
+
+/-- the tree is never empty (cell 0, the root, always exists) -/
+theorem build_size_pos : 0 < (build evs).size := StoreL.build_size_pos evs
+
+/-- S1. `Pos()` of the cursor at index `i` is `i` -/
+theorem build_pos_eq_index : ∀ i, i < (build evs).size → ((build evs).cell i).pos = i :=
+  fun _ hi => StoreL.build_pos_eq_index evs hi
+
+/-- `Pos()` is unique per cursor -/
+theorem build_pos_inj {i j : Nat} (hi : i < (build evs).size) (hj : j < (build evs).size)
+    (h : (build evs).pos i = (build evs).pos j) : i = j := by
+  have h1 := build_pos_eq_index evs i hi
+  have h2 := build_pos_eq_index evs j hj
+  unfold Arena.pos at h
+  omega
+
+/-- `Pos()` is 0 only for the root -/
+theorem build_pos_eq_zero_iff {i : Nat} (hi : i < (build evs).size) :
+    (build evs).pos i = 0 ↔ i = 0 := by
+  have h1 := build_pos_eq_index evs i hi
+  unfold Arena.pos
+  omega
+
+/-- `Pos()` increases in document (= allocation) order -/
+theorem build_pos_lt_iff {i j : Nat} (hi : i < (build evs).size) (hj : j < (build evs).size) :
+    (build evs).pos i < (build evs).pos j ↔ i < j := by
+  have h1 := build_pos_eq_index evs i hi
+  have h2 := build_pos_eq_index evs j hj
+  unfold Arena.pos
+  omega
+
+/-- S2. cell 0 is the root and is its own parent -/
+theorem build_root : (build evs).kind 0 = .root ∧ (build evs).parent 0 = 0 :=
+  StoreL.build_root evs
+
+/-- S2. no other cell is a root -/
+theorem build_kind_ne_root : ∀ i, 0 < i → i < (build evs).size → (build evs).kind i ≠ .root :=
+  fun _ h0 hi => StoreL.build_kind_ne_root evs h0 hi
+
+/-- S2. `Parent()` of every other cursor comes earlier in document order -/
+theorem build_parent_lt : ∀ i, 0 < i → i < (build evs).size → (build evs).parent i < i :=
+  fun _ h0 hi => StoreL.build_parent_lt evs h0 hi
+
+/-- S3. `Namespaces()`: every listed node comes after the element, is a namespace node and has the
+    element as `Parent()` — so each element owns its own namespace nodes -/
+theorem build_mem_nss {i j : Nat} (hi : i < (build evs).size) (hj : j ∈ (build evs).nss i) :
+    i < j ∧ j < (build evs).size ∧ (build evs).kind j = .ns ∧ (build evs).parent j = i :=
+  StoreL.build_mem_nss evs hi hj
+
+/-- a namespace node is listed by exactly one cursor -/
+theorem build_nss_owner {i i' j : Nat} (hi : i < (build evs).size) (hi' : i' < (build evs).size)
+    (hj : j ∈ (build evs).nss i) (hj' : j ∈ (build evs).nss i') : i = i' := by
+  rw [← (build_mem_nss evs hi hj).2.2.2, ← (build_mem_nss evs hi' hj').2.2.2]
+
+/-- S3. `Attributes()` -/
+theorem build_mem_attrs {i j : Nat} (hi : i < (build evs).size) (hj : j ∈ (build evs).attrs i) :
+    i < j ∧ j < (build evs).size ∧ (build evs).kind j = .attr ∧ (build evs).parent j = i :=
+  StoreL.build_mem_attrs evs hi hj
+
+/-- S3. `Children()` -/
+theorem build_mem_kids {i j : Nat} (hi : i < (build evs).size) (hj : j ∈ (build evs).kids i) :
+    i < j ∧ j < (build evs).size
+    ∧ ((build evs).kind j ≠ .ns ∧ (build evs).kind j ≠ .attr ∧ (build evs).kind j ≠ .root)
+    ∧ (build evs).parent j = i :=
+  StoreL.build_mem_kids evs hi hj
+
+/-- S3. conversely, every cursor but the root is listed by its `Parent()`, in the list that
+    matches its kind -/
+theorem build_listed {j : Nat} (h0 : 0 < j) (hj : j < (build evs).size) :
+    match (build evs).kind j with
+    | .ns => j ∈ (build evs).nss ((build evs).parent j)
+    | .attr => j ∈ (build evs).attrs ((build evs).parent j)
+    | _ => j ∈ (build evs).kids ((build evs).parent j) :=
+  StoreL.build_listed evs h0 hj
+
+/-- S3. the three lists are strictly ascending (document order, no duplicates) -/
+theorem build_lists_asc {i : Nat} (hi : i < (build evs).size) :
+    strictAsc ((build evs).nss i) = true ∧ strictAsc ((build evs).attrs i) = true
+    ∧ strictAsc ((build evs).kids i) = true :=
+  StoreL.build_lists_asc evs hi
+
+/-- S3. only the root and elements have namespace nodes, attributes or children -/
+theorem build_container {i : Nat} (hi : i < (build evs).size) :
+    (build evs).kind i = .root ∨ (build evs).kind i = .elem
+    ∨ ((build evs).nss i = [] ∧ (build evs).attrs i = [] ∧ (build evs).kids i = []) :=
+  StoreL.build_container evs hi
+
+/-- S5. pre-order layout: the parent of cell `i` is cell `i-1` or one of its ancestors, i.e. a node
+    comes after the whole subtree of every preceding sibling -/
+theorem build_preorder : ∀ i, 0 < i → i < (build evs).size →
+    (build evs).parent i = i - 1 ∨ Spec.anc (build evs) ((build evs).parent i) (i - 1) = true :=
+  fun _ h0 hi => StoreL.build_preorder evs h0 hi
+
+/-- S6, unconditional form: the only clause of the Cursor contract that can fail is the relative
+    order of the three lists of a cell -/
+theorem build_wf_iff :
+    wfb (build evs) = true ↔
+      ∀ i, i < (build evs).size →
+        (∀ x ∈ (build evs).nss i, ∀ y ∈ (build evs).attrs i, x < y)
+        ∧ (∀ x ∈ (build evs).nss i, ∀ y ∈ (build evs).kids i, x < y)
+        ∧ (∀ x ∈ (build evs).attrs i, ∀ y ∈ (build evs).kids i, x < y) := by
+  rw [StoreL.build_wf_iff_ordinv]
+  constructor
+  · intro o i hi
+    exact ⟨o i hi .ns .attr (by decide), o i hi .ns .kid (by decide), o i hi .attr .kid (by decide)⟩
+  · intro h i hi Y Z hr
+    obtain ⟨h1, h2, h3⟩ := h i hi
+    cases Y <;> cases Z <;> simp [Cls.rank] at hr
+    · exact h1
+    · exact h2
+    · exact h3
+
+/-! ### for streams that honour the Parser contract
+
+  `Ordered evs` (decidable): in every element, and at the top level, namespace events come before
+  attribute events, which come before child events.  `Conforming evs` adds: no attribute event at
+  the top level (not needed for the Cursor contract). -/
+
+variable {evs}
+
+/-- S4. an element < its namespace nodes < its attributes < its children -/
+theorem build_lists_ordered (ho : Ordered evs) {i : Nat} (hi : i < (build evs).size) :
+    (∀ x ∈ (build evs).nss i, ∀ y ∈ (build evs).attrs i, x < y)
+    ∧ (∀ x ∈ (build evs).nss i, ∀ y ∈ (build evs).kids i, x < y)
+    ∧ (∀ x ∈ (build evs).attrs i, ∀ y ∈ (build evs).kids i, x < y) :=
+  have o := StoreL.build_ordinv ho
+  ⟨o i hi .ns .attr (by decide), o i hi .ns .kid (by decide), o i hi .attr .kid (by decide)⟩
+
+/-- S6. the store honours the whole Cursor contract -/
+theorem build_wf_of_ordered (ho : Ordered evs) : wfb (build evs) = true :=
+  StoreL.build_wf_of_ordered ho
+
+theorem build_wf (hc : Conforming evs) : wfb (build evs) = true :=
+  StoreL.build_wf hc
+
+/-- S7. the tree denotes the stream: in document order, every element, attribute, text, comment and
+    processing instruction of the stream appears with its names, value and nesting depth, and every
+    element has exactly the in-scope namespace bindings the stream declares for it -/
+theorem build_mirrors_of_ordered (ho : Ordered evs) : Spec.mirrors evs (build evs) = true :=
+  StoreL.build_mirrors_of_ordered ho
+
+theorem build_mirrors (hc : Conforming evs) : Spec.mirrors evs (build evs) = true :=
+  StoreL.build_mirrors hc
+
+/-- C10 on a conforming stream: the Cursor contract holds and the tree is the tree of the stream -/
+theorem build_correct (hc : Conforming evs) :
+    wfb (build evs) = true ∧ Spec.mirrors evs (build evs) = true :=
+  ⟨build_wf hc, build_mirrors hc⟩
+
+example : Conforming sampleStream := by decide
+
+/-! ### `Ordered` cannot be dropped: streams outside the Parser contract -/
+
+/-- a namespace event after an attribute: the namespace node gets a larger position than the
+    attribute -/
+example : wfb (build [.elem [] ['r'], .attr [] ['k'] ['v'], .ns ['p'] ['u']]) = false := by decide
+/-- an attribute event after a child -/
+example : wfb (build [.elem [] ['r'], .text ['t'], .attr [] ['k'] ['v']]) = false := by decide
+/-- a namespace event after a child, at the top level -/
+example : wfb (build [.comment ['c'], .ns ['p'] ['u']]) = false := by decide
+/-- an attribute event at the top level alone does not break the Cursor contract -/
+example : wfb (build [.attr [] ['k'] ['v'], .elem [] ['r']]) = true := by decide
+/-- a late namespace event also breaks `mirrors` (the specification rebinds the prefix for the
+    element's scope, the store cannot renumber the nodes it already handed out) -/
+example : Spec.mirrors [.elem [] ['r'], .text ['t'], .ns ['p'] ['u']]
+    (build [.elem [] ['r'], .text ['t'], .ns ['p'] ['u']]) = false := by decide
 
 end Xsel.C10
